@@ -151,6 +151,50 @@ var fullTargets = []target{
 	{"helpers.go", "Nodeconfig", "StringConfigRequired", "hStringConfigRequired"},
 	{"helpers.go", "Nodeconfig", "Float64Config", "hFloat64Config"},
 	{"helpers.go", "Nodeconfig", "Float64ConfigRequired", "hFloat64ConfigRequired"},
+	// context: functions the models' assumptions rest on (construction, wiring, the calls around the modelled code)
+	{"node/node.go", "", "getNodeType", "getNodeType"},
+	{"node/node.go", "Context", "invokeProcessorSync", "invokeProcessorSync"},
+	{"node/node.go", "Context", "invokeProcessorFanout", "invokeProcessorFanout"},
+	{"event.go", "", "NewAsyncEvent", "newAsyncEvent"},
+	{"node/registry.go", "Registry", "InstantiateNode", "instantiateNode"},
+	{"node/registry.go", "Registry", "InstantiateSource", "instantiateSource"},
+	{"executor/executor.go", "", "WithConfig", "withConfig"},
+	{"executor/executor.go", "", "New", "exNew"},
+	{"executor/executor.go", "Executor", "SendMessage", "exSendMessage"},
+	{"executor/executor.go", "Executor", "FindNodeByID", "exFindNodeByID"},
+	{"executor/executor.go", "", "findMatchingNode", "exFindMatchingNode"},
+	{"executor/executor.go", "Executor", "GetSource", "exGetSource"},
+	{"executor/message.go", "Executor", "InitMessaging", "exInitMessaging"},
+	{"executor/message.go", "Executor", "StartMessaging", "exStartMessaging"},
+	{"executor/message.go", "Executor", "initMessagingKafka", "exInitMessagingKafka"},
+	{"executor/message.go", "", "newMessage", "exNewMessage"},
+	{"executor/message.go", "", "sendMessage", "exSendMessageFn"},
+	{"executor/message.go", "", "ackMessage", "exAckMessageFn"},
+	{"message/message.go", "", "InitKafkaSender", "msgInitKafkaSender"},
+	{"message/message.go", "", "ShutdownKafkaSender", "msgShutdownKafkaSender"},
+	{"message/message.go", "", "GetSender", "msgGetSender"},
+	{"message/kafkamessagesender.go", "", "NewKafkaMessageSender", "newKafkaMessageSender"},
+	{"message/kafkamessagesender.go", "KafkaMessageSender", "Shutdown", "msShutdown"},
+	{"message/kakfamessagereceiver.go", "", "NewKafkaReceiver", "newKafkaReceiver"},
+	{"message/kakfamessagereceiver.go", "KafkaMessageReceiver", "Start", "mrStart"},
+	{"message/kakfamessagereceiver.go", "KafkaMessageReceiver", "Initialized", "mrInitialized"},
+	{"message/kakfamessagereceiver.go", "KafkaMessageReceiver", "SetNotificationFunc", "mrSetNotificationFunc"},
+	{"message/kakfamessagereceiver.go", "KafkaMessageReceiver", "Shutdown", "mrShutdown"},
+	{"fbcontext/fbcontext.go", "ContextAware", "Init", "ctxInit"},
+	{"fbcontext/fbcontext.go", "Context", "SendMessage", "ctxSendMessage"},
+	{"fbcontext/fbcontext.go", "Context", "AckMessage", "ctxAckMessage"},
+	{"fbcontext/fbcontext.go", "Context", "ConfigureMessaging", "ctxConfigureMessaging"},
+	{"node/elasticsearch/elasticsearch.go", "Elasticsearch", "Setup", "esSetup"},
+	{"node/elasticsearch/elastic_index_client.go", "", "NewElasticIndexClient", "newElasticIndexClient"},
+	{"node/kafkaproducer/kafkaproducer.go", "KafkaProducer", "Setup", "kpSetup"},
+	{"node/kafkaproducer/kafkaproducer.go", "KafkaProducer", "Shutdown", "kpShutdown"},
+	{"node/kafkaproducer/kafkaproducer.go", "KafkaProducer", "startEventsReceiver", "kpStartEventsReceiver"},
+	{"node/kafkaproducer/kafkaproducer.go", "KafkaProducer", "stop", "kpStop"},
+	{"node/kafkaconsumer/kafkaconsumer.go", "KafkaConsumer", "Setup", "kcSetup"},
+	{"node/kafkaconsumer/kafkaconsumer.go", "KafkaConsumer", "Start", "kcStart"},
+	{"node/kafkaconsumer/kafkaconsumer.go", "KafkaConsumer", "Shutdown", "kcShutdown"},
+	{"node/kafkaconsumer/recoverytracker.go", "", "NewRecoveryTracker", "newRecoveryTracker"},
+	{"node/kafkaconsumer/recoveryconsumer.go", "RecoveryConsumer", "Shutdown", "rcShutdown"},
 }
 
 var fset = token.NewFileSet()
